@@ -56,8 +56,148 @@ Theorem c14_with_aggregates : forall (I : interp) swap (deadline : nat -> bool) 
         strat_model_fixed I (plan_strata P pl) F0 M -> forall f, In f (rows st') <-> In f M).
 Proof. intros I swap. exact (run_timeout_strat I swap (eval_variant_spec_agg I swap)). Qed.
 
-(* PARTIAL: lattice relations ("every lattice value is below the final one": C03's c03_sound_at_every_iteration gives
-   soundness of every intermediate state of the lattice engine, not yet phrased for run_timeout); the real clock
-   (web_time::Instant) is replaced by the oracle. *)
+(* Lattice relations: "every lattice value is below the final one" and the resume theorems are c14_lattice_* at the end
+   of this file, about a model of run_timeout for C03's lattice engine.
+   PARTIAL (what is still not a theorem here): the real clock (web_time::Instant) is replaced by the oracle; programs
+   that combine lattices WITH aggregation / negation, BYODS relations and the parallel engine are exercised by the
+   ties only; the resuming run() must terminate within the fuel. *)
 
 Print Assumptions c14_stops_sound. Print Assumptions c14_resume_run. Print Assumptions c14_resume_run_timeout. Print Assumptions c14_never_firing_clock_is_run. Print Assumptions c14_with_aggregates.
+
+(* ================= lattice relations =================
+   Model: LatEngine/LatTimeout.v run_timeout = the lattice engine of C03 (LatEval.v) with the deadline read exactly where
+   __check_return_conditions!() sits - after an iteration of a looping SCC that changed something (after the merge of
+   delta into total), and after a non-looping SCC - by an arbitrary clock oracle; `return false` drops the local indices
+   and keeps the rows, lattice values raised in place included; the next call rebuilds every index from the rows, so the
+   program value left behind IS its rows.  Proofs: LatEngine/{LatRBase,LatTimeout,LatRExample}.v.  Reading guide as in
+   Props/C03.v (tle = same key and value below; dble = Hoare order on sets of facts; directed / closedH). *)
+From Coq Require Import Permutation.
+From AV Require Import LatEngine.LatSyntax LatEngine.LatEval LatEngine.LatPlan LatEngine.LatSem LatEngine.LatBase LatEngine.LatHead.
+From AV Require Import LatEngine.LatKeys LatEngine.LatScc LatEngine.LatMain LatEngine.LatVocab LatEngine.LatExample.
+From AV Require Import LatEngine.LatRBase LatEngine.LatRerun LatEngine.LatTimeout LatEngine.LatRExample.
+
+(* whatever run_timeout returns, at whatever point the deadline struck: the rows left are a legal input (declared
+   arities, lattice elements, ONE ROW PER KEY); the input rows are in place, their values only went up; plain relations
+   were only appended to, by new rows; every row is below EVERY directed closed set above the input (so every lattice
+   value is below the final one); and `true` means the least fixed point *)
+Theorem c14_lattice_stops_sound : forall (V : Type) (I : linterp V) islat lle jm shuffle swap_oracle arities P pl (deadline : nat -> bool) Rin fuel b R,
+  veqb_ok I -> (forall r, islat r = true -> lat_laws (lle r) (jm r)) ->
+  (forall n l x, In x (shuffle n l) <-> In x l) ->
+  arities_functional arities -> no_agg P = true -> monotone_program I islat lle P ->
+  validate arities P pl = true -> lat_plan_ok islat arities pl = true ->
+  input_ok I islat lle arities Rin ->
+  run_timeout I islat jm shuffle swap_oracle deadline fuel pl Rin = Some (b, R) ->
+  input_ok I islat lle arities R
+  /\ (forall r i row, nth_error (Rin r) i = Some row -> exists row', nth_error (R r) i = Some row' /\ tle I islat lle r row row')
+  /\ (forall r, islat r = false -> exists added, R r = Rin r ++ added /\ NoDup added /\ (forall t, In t added -> ~ In t (Rin r)))
+  /\ (forall J : db, directed I islat lle J -> closedH I islat lle P J -> dble I islat lle (dbof Rin) J -> dble I islat lle (dbof R) J)
+  /\ (b = true -> directed I islat lle (dbof R) /\ closedH I islat lle P (dbof R) /\ dble I islat lle (dbof Rin) (dbof R) /\
+                 forall J : db, directed I islat lle J -> closedH I islat lle P J -> dble I islat lle (dbof Rin) J -> dble I islat lle (dbof R) J).
+Proof.
+  intros V I islat lle jm shuffle swap_oracle arities P pl deadline Rin fuel b R H1 H2 H3 H4 H5 H6 H7 H8.
+  exact (lat_timeout_correct I H1 islat lle jm H2 shuffle H3 swap_oracle arities H4 P H5 H6 pl H7 H8 deadline Rin fuel b R).
+Qed.
+
+(* every row left by an interrupted call is below the row with the same key of an uninterrupted run *)
+Theorem c14_lattice_below_final : forall (V : Type) (I : linterp V) islat lle jm shuffle swap_oracle arities P pl (deadline : nat -> bool) Rin fuel b R fuel0 st0,
+  veqb_ok I -> (forall r, islat r = true -> lat_laws (lle r) (jm r)) ->
+  (forall n l x, In x (shuffle n l) <-> In x l) ->
+  arities_functional arities -> no_agg P = true -> monotone_program I islat lle P ->
+  validate arities P pl = true -> lat_plan_ok islat arities pl = true ->
+  input_ok I islat lle arities Rin ->
+  run_timeout I islat jm shuffle swap_oracle deadline fuel pl Rin = Some (b, R) ->
+  run_plan I islat jm shuffle swap_oracle fuel0 pl Rin = Some st0 ->
+  forall r row, In row (R r) -> exists row', In row' (l_rows st0 r) /\ tle I islat lle r row row'.
+Proof.
+  intros V I islat lle jm shuffle swap_oracle arities P pl deadline Rin fuel b R fuel0 st0 H1 H2 H3 H4 H5 H6 H7 H8.
+  exact (lat_timeout_below_final I H1 islat lle jm H2 shuffle H3 swap_oracle arities H4 P H5 H6 pl H7 H8 deadline Rin fuel b R fuel0 st0).
+Qed.
+
+(* resumed Rin R: the rows R are left by ANY number of calls of run_timeout (each with its own clock and fuel, interrupted
+   or not), one after the other, starting from the input Rin.  Such rows are still sound w.r.t. the ORIGINAL input *)
+Theorem c14_lattice_resumed_sound : forall (V : Type) (I : linterp V) islat lle jm shuffle swap_oracle arities P pl Rin R,
+  veqb_ok I -> (forall r, islat r = true -> lat_laws (lle r) (jm r)) ->
+  (forall n l x, In x (shuffle n l) <-> In x l) ->
+  arities_functional arities -> no_agg P = true -> monotone_program I islat lle P ->
+  validate arities P pl = true -> lat_plan_ok islat arities pl = true ->
+  input_ok I islat lle arities Rin -> resumed I islat jm shuffle swap_oracle pl Rin R ->
+  input_ok I islat lle arities R
+  /\ (forall r i row, nth_error (Rin r) i = Some row -> exists row', nth_error (R r) i = Some row' /\ tle I islat lle r row row')
+  /\ (forall r, islat r = false -> exists added, R r = Rin r ++ added /\ NoDup added /\ (forall t, In t added -> ~ In t (Rin r)))
+  /\ (forall J : db, directed I islat lle J -> closedH I islat lle P J -> dble I islat lle (dbof Rin) J -> dble I islat lle (dbof R) J).
+Proof.
+  intros V I islat lle jm shuffle swap_oracle arities P pl Rin R H1 H2 H3 H4 H5 H6 H7 H8.
+  exact (lat_resumed_correct I H1 islat lle jm H2 shuffle H3 swap_oracle arities H4 P H5 H6 pl H7 H8 Rin R).
+Qed.
+
+(* calling run() afterwards completes to exactly the least fixed point of the ORIGINAL input: the rows of a single
+   uninterrupted run() (the same rows in every relation; one row per key, so the same number of rows in lattice relations) *)
+Theorem c14_lattice_resume_run : forall (V : Type) (I : linterp V) islat lle jm shuffle swap_oracle arities P pl Rin R fuel st,
+  veqb_ok I -> (forall r, islat r = true -> lat_laws (lle r) (jm r)) ->
+  (forall n l x, In x (shuffle n l) <-> In x l) ->
+  arities_functional arities -> no_agg P = true -> monotone_program I islat lle P ->
+  validate arities P pl = true -> lat_plan_ok islat arities pl = true ->
+  input_ok I islat lle arities Rin -> resumed I islat jm shuffle swap_oracle pl Rin R ->
+  run_plan I islat jm shuffle swap_oracle fuel pl R = Some st ->
+  (let F := dbof (l_rows st) in
+   directed I islat lle F /\ closedH I islat lle P F /\ dble I islat lle (dbof Rin) F /\
+   forall J : db, directed I islat lle J -> closedH I islat lle P J -> dble I islat lle (dbof Rin) J -> dble I islat lle F J) /\
+  forall fuel0 st0, run_plan I islat jm shuffle swap_oracle fuel0 pl Rin = Some st0 ->
+    (forall r t, In t (l_rows st r) <-> In t (l_rows st0 r)) /\ (forall r, islat r = true -> Permutation (l_rows st r) (l_rows st0 r)).
+Proof.
+  intros V I islat lle jm shuffle swap_oracle arities P pl Rin R fuel st H1 H2 H3 H4 H5 H6 H7 H8.
+  exact (lat_timeout_resume_run I H1 islat lle jm H2 shuffle H3 swap_oracle arities H4 P H5 H6 pl H7 H8 Rin R fuel st).
+Qed.
+
+(* ... and a later run_timeout that returns true has reached that same least fixed point of the original input *)
+Theorem c14_lattice_resume_run_timeout : forall (V : Type) (I : linterp V) islat lle jm shuffle swap_oracle arities P pl Rin R (deadline : nat -> bool) fuel R',
+  veqb_ok I -> (forall r, islat r = true -> lat_laws (lle r) (jm r)) ->
+  (forall n l x, In x (shuffle n l) <-> In x l) ->
+  arities_functional arities -> no_agg P = true -> monotone_program I islat lle P ->
+  validate arities P pl = true -> lat_plan_ok islat arities pl = true ->
+  input_ok I islat lle arities Rin -> resumed I islat jm shuffle swap_oracle pl Rin R ->
+  run_timeout I islat jm shuffle swap_oracle deadline fuel pl R = Some (true, R') ->
+  directed I islat lle (dbof R') /\ closedH I islat lle P (dbof R') /\ dble I islat lle (dbof Rin) (dbof R') /\
+  forall J : db, directed I islat lle J -> closedH I islat lle P J -> dble I islat lle (dbof Rin) J -> dble I islat lle (dbof R') J.
+Proof.
+  intros V I islat lle jm shuffle swap_oracle arities P pl Rin R deadline fuel R' H1 H2 H3 H4 H5 H6 H7 H8.
+  exact (lat_timeout_resume_true I H1 islat lle jm H2 shuffle H3 swap_oracle arities H4 P H5 H6 pl H7 H8 Rin R deadline fuel R').
+Qed.
+
+(* run() is run_timeout with a clock that never fires (timeout = Duration::MAX) *)
+Theorem c14_lattice_never_firing_clock_is_run : forall (V : Type) (I : linterp V) islat jm shuffle swap_oracle fuel pl R,
+  run_timeout I islat jm shuffle swap_oracle (fun _ => false) fuel pl R =
+  option_map (fun st' => (true, l_rows st')) (run_plan I islat jm shuffle swap_oracle fuel pl R).
+Proof. intros V I islat jm shuffle swap_oracle. exact (lat_timeout_never I islat jm shuffle swap_oracle). Qed.
+
+(* non-vacuity on the shortest-path program of c03_example_hypotheses (legal input: c13_lattice_example_input): the third
+   deadline reading fires in the middle of the recursive SCC - 21 of the 25 distances are there, 0 -> 4 stands at 6
+   (final: 4), near is still empty - and run() afterwards returns the rows of an uninterrupted run; after two
+   interruptions in a row the resumed run holds the same rows in a different order *)
+Example c14_lattice_example_runs :
+  match sp_run_t 3 sp_input, sp_run sp_input with
+  | Some (b, R), Some st0 =>
+      b = false /\ length (R 1%nat) = 21%nat /\ In [0; 4; 6]%Z (R 1%nat) /\ In [0; 4; 4]%Z (l_rows st0 1%nat) /\ R 2%nat = [] /\
+      option_map (fun st => sp_obs (l_rows st)) (sp_run R) = Some (sp_obs (l_rows st0))
+  | _, _ => False
+  end.
+Proof. exact sp_timeout_runs. Qed.
+Example c14_lattice_example_twice :
+  match sp_run_t 2 sp_input, sp_run sp_input with
+  | Some (b1, R1), Some st0 =>
+      match sp_run_t 2 R1 with
+      | Some (b2, R2) =>
+          match sp_run R2 with
+          | Some st => b1 = false /\ b2 = false /\ same_rows (l_rows st 1%nat) (l_rows st0 1%nat) = true /\
+                       same_rows (l_rows st 2%nat) (l_rows st0 2%nat) = true /\ l_rows st 2%nat <> l_rows st0 2%nat
+          | None => False
+          end
+      | None => False
+      end
+  | _, _ => False
+  end.
+Proof. exact sp_timeout_twice_runs. Qed.
+
+Print Assumptions c14_lattice_stops_sound. Print Assumptions c14_lattice_below_final. Print Assumptions c14_lattice_resumed_sound.
+Print Assumptions c14_lattice_resume_run. Print Assumptions c14_lattice_resume_run_timeout. Print Assumptions c14_lattice_never_firing_clock_is_run.
+Print Assumptions c14_lattice_example_runs. Print Assumptions c14_lattice_example_twice.
